@@ -196,7 +196,7 @@ public:
       {
         auto& level0 = _wheels[0];
         auto& bucket = level0.buckets[level0.currentTick & _tickMask];
-        collectFromBucket(bucket, toFire);
+        collectFromBucket(bucket, now, toFire);
         level0.currentTick++;
 
         if ((level0.currentTick & _tickMask) == 0)
@@ -533,7 +533,13 @@ private:
   /// skip entries that were placed correctly. Entries whose deadline
   /// is slightly in the future (placed between ticks) still fire —
   /// this matches the tick-granularity contract.
-  void collectFromBucket(Bucket& bucket,
+  ///
+  /// Exception (tick drift catch-up): when advance() processes several
+  /// buckets at once because the tick thread fell behind, an entry that was
+  /// inserted during the lag sits in a bucket computed from a stale
+  /// currentTick. Firing it now could be many ticks early, so an entry whose
+  /// deadline is more than one tick ahead of `now` is re-inserted instead.
+  void collectFromBucket(Bucket& bucket, TimePoint now,
                          std::vector<std::pair<TimerId, Callback>>& toFire)
   {
     auto* entry = bucket.head;
@@ -541,6 +547,14 @@ private:
     {
       auto* next = entry->next;
       bucket.unlink(entry);
+      if (entry->deadline > now + _tickDuration)
+      {
+        auto remaining = std::chrono::duration_cast<std::chrono::milliseconds>(
+          entry->deadline - now);
+        insertEntry(entry, remaining);
+        entry = next;
+        continue;
+      }
       _entryMap.erase(entry->id);
       toFire.emplace_back(entry->id, std::move(entry->callback));
       freeEntry(entry);
